@@ -185,12 +185,14 @@ def sim_delay_cases(ctx):
         k += 1
         m = c09.gen_model(rng, 1000 + k)
         if not m["delays"]:
+            m.pop("multiples", None)            # a delay buffer needs a fixed step
             src = rng.choice(m["states"] + m["algebraics"])["name"]
             mult = rng.choice([1, 2, Fraction(1, 2), Fraction(3, 2), Fraction(5, 4), 0, 3])
             m["algebraics"].append({"name": "dly0"})
             m["delays"].append(["dly0", ["v", src], str(mult * m["dt"])])
         m["nsteps"] = max(m["nsteps"], 5)
         for u in m["series"]:
+            m["series"][u] = m["series"][u][: m["nsteps"] + 1]
             while len(m["series"][u]) < m["nsteps"] + 1:
                 m["series"][u].append(str(Fraction(rng.randint(-16, 16), 4)))
         specs.append(m)
